@@ -131,6 +131,29 @@ def esds_offsets(buf: bytes, b: isobmff.Box) -> list[tuple[int, int]]:
         return []
 
 
+MASKS = {'avc_chroma_format': 0x03, 'avc_luma_depth': 0x07, 'avc_chroma_depth': 0x07}
+
+
+def avcc_ext_offset(buf: bytes, b: isobmff.Box) -> int | None:
+    """offset of the chroma_format byte of an AVCDecoderConfigurationRecord with the High-profile
+    extension (ISO/IEC 14496-15 5.3.3.1.2), or None"""
+    p = b.body
+    if b.size < 15 or buf[p + 1] not in (100, 110, 122, 244, 44, 83, 86, 118, 128, 138, 139, 134, 135):
+        return None
+    p += 5
+    n = buf[p] & 0x1F
+    p += 1
+    for _ in range(n):
+        p += 2 + struct.unpack_from('>H', buf, p)[0]
+    n = buf[p]
+    p += 1
+    for _ in range(n):
+        p += 2 + struct.unpack_from('>H', buf, p)[0]
+    if p + 4 > b.end:
+        return None
+    return p
+
+
 def mutate_stsd(rng, stsd: bytes) -> tuple[bytes, list[str]]:
     """in-place mutation of fixed-width numeric fields + replacement of simple leaf children"""
     what = []
@@ -150,6 +173,9 @@ def mutate_stsd(rng, stsd: bytes) -> tuple[bytes, list[str]]:
             spots += [(b.body + 6, 2, 'dri')]
         elif t == b'avcC':
             spots += [(b.body + 3, 1, 'avc_level')]
+            ext = avcc_ext_offset(stsd, b)
+            if ext is not None:
+                spots += [(ext, 1, 'avc_chroma_format'), (ext + 1, 1, 'avc_luma_depth'), (ext + 2, 1, 'avc_chroma_depth')] * 3
         elif t == b'hvcC':
             spots += [(b.body + 12, 1, 'hevc_level'), (b.body + 19, 2, 'avgFrameRate')]
         elif t == b'esds':
@@ -165,13 +191,15 @@ def mutate_stsd(rng, stsd: bytes) -> tuple[bytes, list[str]]:
         val = bw.bits(rng, 8 * width)
         if name in ('dri',):
             val = rng.choice([1, 2, 0xFFFF])
+        if name in MASKS:           # bit fields that share their byte with reserved '1' bits
+            val = (buf[off] & ~MASKS[name] & 0xFF) | (val & MASKS[name])
         buf[off:off + width] = val.to_bytes(width, 'big')
         what.append(name)
     data = bytes(buf)
     # graft: replace simple leaf children by freshly generated ones
     for _ in range(rng.randrange(0, 3)):
         root = isobmff.parse_file(data)
-        leaves = [b for b in root.walk() if b.type in (b'pasp', b'btrt', b'frma', b'schm', b'mime', b'vttC')]
+        leaves = [b for b in root.walk() if b.type in (b'pasp', b'btrt', b'frma', b'schm', b'mime', b'vttC', b'esds')]
         if not leaves:
             break
         b = rng.choice(leaves)
